@@ -7,6 +7,7 @@ LAW_CFG = "INIT LawInit\nNEXT LawNext\nINVARIANT LawsHold\nCONSTANT L = 5\nCHECK
 ENUMB_CFG = "INIT EnumBInit\nNEXT EnumBNext\nCONSTANT L = 5\nCHECK_DEADLOCK FALSE\n"
 ENUMI_CFG = "INIT EnumIInit\nNEXT EnumINext\nCONSTRAINT EnumIEmit\nCONSTANT L = %d\nCHECK_DEADLOCK FALSE\n"
 ENUMC_CFG = "INIT EnumCInit\nNEXT EnumCNext\nCONSTRAINT EnumCEmit\nCONSTANT L = %d\nCHECK_DEADLOCK FALSE\n"
+ENUMP_CFG = "INIT EnumPInit\nNEXT EnumPNext\nCONSTRAINT EnumPEmit\nCONSTANT L = %d\nCHECK_DEADLOCK FALSE\n"
 JUDGE_CFG = "INIT JudgeInit\nNEXT JudgeNext\nCONSTANT L = 5\nCHECK_DEADLOCK FALSE\n"
 
 
@@ -155,6 +156,26 @@ def round_trip(v):
             {"op": "mutpassed", "nm": "a"}, {"op": "get", "nm": "a"}, {"op": "evalname", "nm": "a"}]
 
 
+def rnd_prop_history(rng):
+    """a property history: a literal object (random data properties), 1-5 random steps on a small pool of names, then converted"""
+    pool = [wire.units(n) for n in ("x", "y", "z", "k", "length", "constructor")]
+    for _ in range(2):
+        u = rnd_units(rng)
+        if u != wire.units("__proto__") and u not in pool:      # "__proto__" is special in a literal (also in a descriptor map)
+            pool.append(u)
+    names = rng.sample(pool, rng.choice([0, 1, 2, 3]))
+    base = {"k": "obj", "p": [{"n": n, "v": rnd_js(rng, 2)} for n in names]}
+    path = rng.choice(["top", "first"])
+    steps = []
+    for _ in range(rng.choice([1, 2, 3, 4, 5])):
+        act = rng.choice(["assign", "delete", "data", "get", "set", "getset"])
+        via = rng.choice(["one", "many"]) if act in ("data", "get", "set", "getset") else "one"
+        steps.append({"act": act, "via": via, "n": rng.choice(pool), "v": rnd_js(rng, 2)})
+    return [{"op": "evalset", "nm": "a", "e": base if path == "top" else {"k": "arr", "e": [base, rnd_js(rng, 1)]}},
+            {"op": "defprops", "nm": "a", "path": path, "steps": steps},
+            {"op": "get", "nm": "a"}, {"op": "evalname", "nm": "a"}, {"op": "mutret", "nm": "a"}, {"op": "get", "nm": "a"}]
+
+
 def random_traces(rng, n):
     out = []
     forms = ["call", "method", "fcall", "apply", "bind", "foreach", "map"]
@@ -196,6 +217,8 @@ def random_traces(rng, n):
             out.append([{"op": "callseq", "mk": mk, "thisv": rnd_js(rng, 1), "pre": pre, "pre2": pre2, "inv": inv,
                          "rets": [rnd_py(rng, rng.choice([0, 0, 1, 2])) for _ in range(rng.choice([1, 2, 3, 7]))],
                          "split": rng.random() < 0.5}])
+        elif i % 40 == 19:
+            out.append(rnd_prop_history(rng))
         else:
             form = rng.choice(forms)
             args = [rnd_js(rng, 2) for _ in range(rng.choice([0, 1, 2, 3, 4, 6]))]
@@ -241,6 +264,19 @@ def show_event(ev):
         mk = mk % tuple(pres[:mk.count("%s")])
         return "callseq[f = %s%s] %s" % (mk, ", one eval per step" if ev["split"] else "",
                                          " ; ".join("%s(%s)" % (iv["form"], ", ".join(wire.show(a) for a in iv["args"])) for iv in ev["inv"]))
+    if op == "defprops":
+        def one(st):
+            n = wire.from_units(st["n"])
+            if st["act"] == "assign":
+                return "%s = %s" % (n, wire.show(st["v"]))
+            if st["act"] == "delete":
+                return "delete " + n
+            return "%s(%s: %s)" % ("defineProperty" if st["via"] == "one" else "defineProperties", n,
+                                   "value " + wire.show(st["v"]) if st["act"] == "data" else st["act"])
+        return "defprops[%s%s] %s" % (ev["nm"], "" if ev["path"] == "top" else "[0]", " ; ".join(one(st) for st in ev["steps"]))
+    if op == "evalcreate":
+        return "evalcreate(%s = %sObject.create(proto, {%s}))" % (ev["nm"], "[..] of " if ev["wrap"] else "", ", ".join(
+            "%s: %s" % (wire.from_units(d["n"]), "value " + wire.show(d["v"]) if d["act"] == "data" else d["act"]) for d in ev["descs"]))
     if op == "hostcall":
         return "hostcall[%s](%s) returning %s" % (ev["form"], ", ".join(wire.show(a) for a in ev["args"]), show_pw(ev["ret"]))
     return "%s(%s)" % (op, ev.get("nm", ""))
@@ -328,6 +364,25 @@ def run(rep):
     rep.spaces.append({"space": "call histories: function value made from the exposed callable (itself / bind with 0-2 pre-filled "
                                 "arguments / bound twice) x this value x one script or one eval per step x ALL sequences of exactly "
                                 "%d invocations over 6 invocation forms x 0..2 arguments (TLC-enumerated)" % hl,
+                       "cases": len(traces) - n0, "complete": True})
+    # property histories: one object, every sequence of L steps (assign / delete / redefine as data or accessor), then converted
+    pl = 2 if rep.tier == "quick" else 3
+    res = tlc.run(rep.pid, "C11", ENUMP_CFG % pl, env={"TIER": rep.tier}, timeout=1500, tag="enumP_%d" % pl, heap="4g")
+    rep.add_tlc("C11.Enum(property histories,L=%d)" % pl, res)
+    n0, seen = len(traces), set()
+    for r in res.records:
+        if "t" in r:
+            k = json.dumps(r["t"], sort_keys=True, separators=(",", ":"))
+            if k not in seen:
+                seen.add(k)
+                traces.append(k)
+    del res, seen
+    if len(traces) - n0 < 1000:
+        raise Machinery("property-history enumeration produced %d histories" % (len(traces) - n0))
+    rep.spaces.append({"space": "property histories: one object (from Context.set / a literal / Object.create with descriptors; held by "
+                                "the name or nested in an array) x ALL sequences of exactly %d steps over assign / delete / redefine as "
+                                "data, getter, setter, getter+setter (Object.defineProperty and Object.defineProperties) on an existing "
+                                "data property and on a new name, then get / eval with aliasing probes (TLC-enumerated)" % pl,
                        "cases": len(traces) - n0, "complete": True})
     ne = len(traces)
     rng = random.Random(rep.seed)
